@@ -252,24 +252,33 @@ def gen_program(rng, bias):
     other = ['l&', 's!', 'd#']
 
     def const_int():
-        return str(rng.choice([0, 1, 2, 3, 7, -1, -5, 10, 100, 255, 1000, 32767]))
+        return str(rng.choice([0, 1, 2, 3, 7, 10, 100, 255, 1000, 32767]))
 
+    def small_int():
+        return str(rng.choice([0, 1, 2, 3, 7, 10, 100, 255]))
+
+    # constant expressions stay inside what every level computes alike:
+    # INTEGER operands and results, + - * \ MOD AND OR XOR, parenthesised
+    # unary minus / NOT (the grammar rejects them after a binary operator)
     def const_expr(depth=0):
         r = rng.random()
         if depth > 2 or r < 0.35:
-            return const_int()
-        if r < 0.45:
-            return rng.choice(['1.5', '2.5', '0.5', '100000', '3', '4.25', '1E3'])
-        op = rng.choice(['+', '-', '*', '\\', 'MOD', 'AND', 'OR', 'XOR', '/'])
+            return small_int()
+        if r < 0.42:
+            return '(-' + rng.choice(['1', '2', '5']) + ')'
+        op = rng.choice(['+', '-', '*', '\\', 'MOD', 'AND', 'OR', 'XOR'])
         a, b = const_expr(depth + 1), const_expr(depth + 1)
-        if op in ('\\', 'MOD', '/'):
-            b = rng.choice(['1', '2', '3', '7', '-2'])
+        if op in ('\\', 'MOD'):
+            b = rng.choice(['1', '2', '3', '7'])
         if op == '*':
-            b = rng.choice(['1', '2', '3', '-1'])
+            b = rng.choice(['1', '2', '3'])
         e = f'({a} {op} {b})'
         if rng.random() < 0.15:
-            e = rng.choice(['-', 'NOT ']) + e
+            e = '(' + rng.choice(['-', 'NOT ']) + e + ')'
         return e
+
+    def float_lit():
+        return rng.choice(['1.5', '2.5', '0.5', '4.25', '3', '100'])
 
     def int_expr():
         r = rng.random()
@@ -291,16 +300,18 @@ def gen_program(rng, bias):
             return rng.choice(ints)
         return f'{rng.choice(ints)} MOD 2 = {rng.choice(["0", "1"])}'
 
-    def simple():
+    def simple(one_line=False):
         r = rng.random()
         if r < 0.35:
             return f'{rng.choice(ints)} = {int_expr()}'
         if r < 0.45:
             v = rng.choice(other)
-            return f'{v} = {const_expr()}' if rng.random() < 0.6 else f'{v} = {v} + {rng.choice(ints)}'
+            return f'{v} = {float_lit()}' if rng.random() < 0.6 else f'{v} = {v} + {rng.choice(ints)}'
         if r < 0.8:
             items = [rng.choice(ints + other + ['"t"', const_expr()]) for _ in range(rng.randrange(1, 4))]
-            return 'PRINT ' + rng.choice(['; ', ', ']).join(items) + rng.choice(['', '', ';'])
+            # a separator before ELSE is not accepted in a single-line IF
+            tail = '' if one_line else rng.choice(['', '', ';'])
+            return 'PRINT ' + rng.choice(['; ', ', ']).join(items) + tail
         if r < 0.85 and procs:
             return f'{rng.choice(procs)} {int_expr()}'
         if r < 0.9:
@@ -333,9 +344,9 @@ def gen_program(rng, bias):
                 out += ['ELSE'] + ['  ' + s for s in maybe_empty(depth + 1)]
             return out + ['END IF']
         if r < 0.58:
-            s = f'IF {cond()} THEN {simple()}'
+            s = f'IF {cond()} THEN {simple(True)}'
             if rng.random() < 0.6:
-                s += f' ELSE {simple()}'
+                s += f' ELSE {simple(True)}'
             return [s]
         if r < 0.70:
             v = rng.choice(ints)
@@ -365,8 +376,9 @@ def gen_program(rng, bias):
                 return [f'{v} = 0', 'DO', f'  {v} = {v} + 1'] + ['  ' + s for s in body] + [f'LOOP UNTIL {v} >= 2']
             return [f'{v} = 0', 'DO', f'  {v} = {v} + 1', f'  IF {v} > 1 THEN EXIT DO'] + \
                    ['  ' + s for s in body] + ['LOOP']
-        if bias == 'opt' and r < 0.97:
-            lab = f'lab{len(lines) + rng.randrange(1000)}'
+        if bias == 'opt' and r < 0.97 and depth == 0:
+            # (a label inside a CASE body makes the block parser fail: top level only)
+            lab = f'lab{rng.randrange(100000)}'
             return [f'GOTO {lab}', f'PRINT "skipped"', f'{lab}:']
         return [simple()]
 
